@@ -29,6 +29,8 @@ struct Shared {
     write_fault: bool,
     /// fail the n-th write call from now (0 = next)
     write_fault_after: Option<usize>,
+    /// the n-th write call from now (0 = next) fails ONCE with this kind of error (e.g. Interrupted)
+    write_hiccup: Option<(usize, io::ErrorKind)>,
     reads: usize,
     writes: usize,
     dropped: bool,
@@ -60,6 +62,7 @@ pub fn pair() -> (MockStream, Peer) {
             max_write: usize::MAX,
             write_fault: false,
             write_fault_after: None,
+            write_hiccup: None,
             reads: 0,
             writes: 0,
             dropped: false,
@@ -125,6 +128,16 @@ impl io::Write for MockStream {
                 return Err(io::Error::new(io::ErrorKind::BrokenPipe, "mock broken pipe"));
             }
             sh.write_fault_after = Some(k - 1);
+        }
+        if let Some((k, kind)) = sh.write_hiccup {
+            // counted only while the transport would accept data (a would-block does not count)
+            if sh.budget != Some(0) {
+                if k == 0 {
+                    sh.write_hiccup = None;
+                    return Err(io::Error::new(kind, "mock hiccup"));
+                }
+                sh.write_hiccup = Some((k - 1, kind));
+            }
         }
         let allowed = sh.budget.unwrap_or(usize::MAX).min(sh.max_write.max(1));
         if allowed == 0 || sh.budget == Some(0) {
@@ -236,6 +249,11 @@ impl Peer {
         let mut sh = m.lock().unwrap();
         sh.write_fault_after = Some(k);
         recompute(&sh, &self.readiness);
+    }
+
+    /// The k-th write call from now that finds the transport willing fails once with `kind`.
+    pub fn hiccup_write_after(&self, k: usize, kind: io::ErrorKind) {
+        self.shared.0.lock().unwrap().write_hiccup = Some((k, kind));
     }
 
     pub fn written(&self) -> Vec<u8> {
